@@ -63,7 +63,8 @@ specs = {
    mods=["Jwt.Props.C09"], files=["Jwt/Props/C09.lean"], gen=0,
    level="Lean theorems for every bits:Nat: the gates pass exactly per the documented floor table; every primitive call made by verification satisfies it (trace); acceptance implies it; the gate is live at/above the floor; the same for signing (generate). Tied to the code by every oct length 1-160 x HS256/384/512 and every generated RSA/EC/OKP key x every public-key algorithm with oracle-signed tokens.",
    assume=[],
-   body='''    extra = {"rsa1024": K.gen_key("rsa", 1024, ctx.scratch), "p384": K.gen_key("ec", "P-384", ctx.scratch),
+   body='''    extra = {"rsa1024": K.gen_key("rsa", 1024, ctx.scratch), "rsa2047": K.gen_key("rsa", 2047, ctx.scratch),
+             "rsa2041": K.gen_key("rsa", 2041, ctx.scratch), "p384": K.gen_key("ec", "P-384", ctx.scratch),
              "p521": K.gen_key("ec", "P-521", ctx.scratch), "k256": K.gen_key("ec", "secp256k1", ctx.scratch),
              "ed448": K.gen_key("okp", "ED448", ctx.scratch)}
     if ctx.tier == "thorough" or deep:
@@ -115,7 +116,10 @@ specs = {
    mods=["Jwt.Props.C05"], files=["Jwt/Props/C05.lean"], gen=0,
    level="Lean theorem C05_roundtrip: for every builder/callback/token, under explicit laws of the delegated parts (jansson load(dump t)=t for the two objects, non-empty MAC/signature, the primitive's own sign->verify law, possibly across providers), the generated token is accepted by a checker holding the corresponding key and pinned alg, and the header/claims it parses are exactly the per-token objects (builder content + typ/alg + iat/nbf/exp per C10). Proved from C11 (decode(encode x)=x, URL alphabet has no dot), exact alg naming/parsing over generated tables, pinning, gates, jwt_strcmp = 0 <-> equal. Provider mathematics and the ECDSA r||s re-framing inside the provider glue are sampled: every key type x admissible alg x random JSON trees x both provider pairs, >=150 (quick) / 4096 (thorough) ECDSA signatures per curve with short r/s counted.",
    assume=["PARTIAL: verify_sign law of OpenSSL/GnuTLS, PSS parameter compatibility, DER handling and the r||s padding arithmetic in the provider glue are assumed in the theorem and sampled by the suite"],
-   body='''    F.run_suites(ctx, model_ok, deep, [
+   body='''    p384 = K.gen_key("ec", "P-384", ctx.scratch)
+    F.run_suites(ctx, model_ok, deep, [
+        ("ecdsa-volume", lambda w, p, t, r: S.ecdsa_volume_suite(w, p, t, r, [("p256", p.keys["p256"], "ES256"), ("p384", p384, "ES384")]), S.falsify_roundtrip,
+         "2500 (quick) / 12000 (thorough) ES256 and ES384 signatures made under GnuTLS and verified under OpenSSL, a fifth as many the other way round; every token also compared with the model and its signature checked by the independent verifier; short r / s counted in oracle_answers", False),
         ("roundtrip", S.roundtrip_suite, S.falsify_roundtrip,
          "per key x admissible alg: random header/claim JSON trees (nesting<=6, unicode, 64-bit extremes, reals, empty containers, 4 KiB strings), sign under openssl|gnutls, verify under openssl|gnutls with the public half, read header+claims in the checker callback; plus ECDSA volume runs", False),
     ])'''),
